@@ -111,7 +111,7 @@ with csem_c (cs : cases) {struct cs} : comps * comps :=
       (here, cunion here (snd (csem_c r)))
   end.
 
-(* positions of the sub-statements that can be entered *)
+(* positions of the sub-statements that can be entered (function declarations are hoisted, see `hoist_l`) *)
 Fixpoint reach (s : stmt) : list N :=
   pos s ::
   match s with
@@ -132,13 +132,24 @@ Fixpoint reach (s : stmt) : list N :=
 with reach_l (l : stmts) : list N :=
   match l with
   | SNil => []
-  | SCons t r => reach t ++ (if cN (csem t []) then reach_l r else [])
+  | SCons t r => reach t ++ (if cN (csem t []) then reach_l r else hoist_l r)
+  end
+(* what is reachable in an entered list even when control never gets to its statements: the bodies of the
+   function declarations that are directly in the list (hoisting); `hoist_l l` is included in `reach_l l` *)
+with hoist_l (l : stmts) : list N :=
+  match l with
+  | SNil => []
+  | SCons t r => (match t with SFnDecl _ _ _ b => reach_l b | _ => [] end) ++ hoist_l r
   end
 with reach_c (cs : cases) : list N :=
   match cs with
   | CNil => []
   | CCons _ _ _ b r => reach_l b ++ reach_c r
   end.
+
+Definition hoist_s (s : stmt) : list N := match s with SFnDecl _ _ _ b => reach_l b | _ => [] end.
+Lemma hoist_l_cons s r : hoist_l (SCons s r) = hoist_s s ++ hoist_l r.
+Proof. reflexivity. Qed.
 
 (* ------------------------------------------------------------------ *)
 (* program-level oracles *)
